@@ -1,6 +1,7 @@
 package sym
 
 import (
+	"strconv"
 	"encoding/json"
 	"fmt"
 	"go/types"
@@ -124,11 +125,12 @@ func NewExec(l *Loaded, spec *EntrySpec, bounds map[string]int, solverKind strin
 	if v, ok := bounds["max_conc"]; ok {
 		ex.MaxConc = v
 	}
-	s, err := NewSolver(ex.Ctx, solverKind, timeout)
-	if err != nil {
-		return nil, err
+	ex.primary = solverKind
+	ex.fastTimeout = 3 * time.Second
+	ex.finalTimeout = timeout
+	if ex.solver(solverKind, false) == nil {
+		return nil, fmt.Errorf("cannot start solver %s", solverKind)
 	}
-	ex.Solver = s
 	rp := l.Pkgs["runtime"]
 	if rp == nil {
 		return nil, fmt.Errorf("runtime package not loaded")
@@ -341,6 +343,12 @@ func (ex *Exec) RunEntry(name string) *EntryResult {
 			switch n.status {
 			case Done:
 				res.Done++
+				if os.Getenv("VERIF_DUMPPATHS") != "" && res.Done%50 == 1 {
+					fmt.Fprintf(os.Stderr, "---- path %d (depth %d)\n", res.Done, n.depth)
+					for _, t := range n.pc {
+						fmt.Fprintf(os.Stderr, "   %s\n", truncate(t.String(), 160))
+					}
+				}
 				if res.Witness == nil {
 					ex.recordWitness(n, res)
 				}
@@ -388,9 +396,11 @@ func (ex *Exec) RunEntry(name string) *EntryResult {
 	res.States = ex.stateSeq + 1
 	res.Forks = ex.Forks
 	res.Terms = ex.Ctx.NumTerms()
-	res.Queries = ex.Solver.Queries
-	res.SolverS[ex.Solver.kind] += ex.Solver.Time.Seconds()
-	res.SolverErrors = ex.Solver.Errors
+	for k, s2 := range ex.extra {
+		res.SolverS[k] += s2.Time.Seconds()
+		res.Queries += s2.Queries
+		res.SolverErrors = append(res.SolverErrors, s2.Errors...)
+	}
 	for f := range ex.FnsEntered {
 		res.Fns = append(res.Fns, f)
 	}
@@ -545,17 +555,37 @@ func runJob(cfg RunConfig, ps *PropertySpec, l *Loaded, es EntrySpec, bounds map
 	if kind == "" {
 		kind = "z3"
 	}
-	to := 20 * time.Second
+	to := 60 * time.Second
 	if cfg.Tier == "thorough" {
-		to = 120 * time.Second
+		to = 300 * time.Second
 	}
 	spec := es
 	ex, err := NewExec(l, &spec, bounds, kind, to)
 	if err != nil {
 		return &EntryResult{Entry: es.Name, Bounds: bounds, Aborted: 1, Aborts: []string{err.Error()}, Labels: map[string]*LabelStat{}, Reach: map[string]int{}, SolverS: map[string]float64{}}
 	}
-	defer ex.Solver.Close()
+	defer ex.closeSolvers()
 	ex.Trace = cfg.Trace
+	if os.Getenv("VERIF_FORKSITES") != "" {
+		ex.ForkSites = map[string]int{}
+		defer func() {
+			type kv struct {
+				k string
+				v int
+			}
+			var l []kv
+			for k, v := range ex.ForkSites {
+				l = append(l, kv{k, v})
+			}
+			sort.Slice(l, func(i, j int) bool { return l[i].v > l[j].v })
+			for i, e := range l {
+				if i > 15 {
+					break
+				}
+				fmt.Fprintf(os.Stderr, "forksite %6d %s\n", e.v, e.k)
+			}
+		}()
+	}
 	ex.Tier = cfg.Tier
 	ex.LabelPrefixes = ps.LabelPrefixes
 	if !es.NoInit {
@@ -567,6 +597,9 @@ func runJob(cfg RunConfig, ps *PropertySpec, l *Loaded, es EntrySpec, bounds map
 	}
 	if cfg.Tier == "thorough" {
 		limit *= 4
+	}
+	if v, err := strconv.Atoi(os.Getenv("VERIF_ENTRY_TIMEOUT")); err == nil && v > 0 {
+		limit = v
 	}
 	ex.deadline = time.Now().Add(time.Duration(limit) * time.Second)
 	return ex.RunEntry(es.Name)
